@@ -565,4 +565,5 @@ func Corpus(thorough bool, yield func(Program)) {
 	if thorough {
 		F8(true, yield)
 	}
+	F9(yield)
 }
